@@ -18,7 +18,7 @@
    Other workers' modules are only `Require`d (not imported): their names are used qualified. *)
 From Coq Require Import List Arith Bool ZArith NArith String Lia.
 From CelloV Require Import Generated Config ConfigProofs.
-From CelloV Require Dispatch DispatchProofs HeapGraph MarkSweep MarkSweepProofs MarkSource.
+From CelloV Require Dispatch DispatchProofs HeapGraph MarkSweep MarkSweepProofs.
 Import ListNotations.
 
 (* ================================================================== Part 1: the method cache and C08 *)
@@ -323,11 +323,17 @@ Proof.
   destruct (P (x, o)); simpl; [rewrite E |]; apply IH; exact H.
 Qed.
 
+(* the two switches of C01's mark model as Generated.v reads them off GC.c (D16 / D17 repaired).  Only these two
+   booleans are used here — not C01's check that the rest of the mark phase still has the transcribed shape
+   (MarkSource.v): whether the model is still the source's is C01's obligation, this file is about the model *)
+Lemma gc_switches_repaired : gc_tls_recurses = true /\ gc_mar_guarded = true.
+Proof. split; reflexivity. Qed.
+
 (* … and it is safe in the sense the transparency theorem needs: C01's collect_safe, through the translation *)
 Theorem c01_collect_safe : collector_safe c01_collect.
 Proof.
   intros n h rs a Ha. unfold c01_collect.
-  destruct MarkSource.source_switches as (_ & Ht & Hm). rewrite Ht, Hm.
+  destruct gc_switches_repaired as (Ht & Hm). rewrite Ht, Hm.
   destruct (MarkSweepProofs.collect_safe_thm (emb_heap h) (emb_reg h) 0 (emb_max h) (emb_order h) [] (emb_stack rs)
               (emb_range_ok h) (emb_order_ok h) (emb_wf h) (emb_raw_wf h)) as (rg' & fin & Hc & Hkeep & _).
   rewrite Hc.
